@@ -1,4 +1,5 @@
 """Path state: branch decisions, path condition, solver, obligations."""
+import os
 import time
 import z3
 
@@ -174,6 +175,9 @@ class Path:
         # quick attempt first: almost every obligation is decided in ms
         quick_ms = min(3000, self.budget.prove_ms)
         s = mk(quick_ms)
+        if os.environ.get('PYVC_DUMP') and os.environ['PYVC_DUMP'] in name:
+            open('/tmp/pyvc_dump_%d.smt2' % len(self.obligations), 'w').write(
+                s.to_smt2())
         r = safe_check(s, quick_ms)
         backend = 'z3-%s' % z3.get_version_string()
         status = 'proved' if r == z3.unsat else (
@@ -210,6 +214,12 @@ class Path:
                 backend = 'z3-%s' % z3.get_version_string()
                 status = 'proved' if r == z3.unsat else (
                     'failed' if r == z3.sat else 'unknown')
+            if status == 'unknown':
+                # a busy machine must not turn a routine obligation into an
+                # UNDECIDED: one more round for the external solvers with
+                # three times the budget
+                big = Budget(prove_ms=self.budget.prove_ms * 3)
+                status, backend = _second_opinion(smt2, big, backend)
         if status == 'failed' and want_model and r == z3.sat:
             m = s.model()
             model = {}
@@ -334,7 +344,8 @@ def _second_opinion(smt2, budget, backend):
     os.write(fd, smt2.encode())
     os.close(fd)
     try:
-        secs = max(2, min(6, budget.prove_ms // 4000))
+        secs = max(2, min(6 if budget.prove_ms <= 20000 else 30,
+                          budget.prove_ms // 4000))
         for cmd, nm in ((['/usr/bin/cvc5', '--strings-exp',
                           '--tlimit=%d' % (secs * 1000), fn], 'cvc5-1.0.3'),
                         (['/usr/bin/z3', '-T:%d' % secs, fn], 'z3-4.8.12')):
